@@ -325,18 +325,29 @@ def translate():
     rb, _ = block_after(srv, r"fn read_channel_messages_and_notify\(&mut self\) -> bool\s*\{", "read_channel_messages_and_notify", fails)
     rm, _ = block_after(rb, r"Ok\(request\) => match request\.content\.request_type\s*\{", "read_channel match", fails)
     s0, seen0 = {}, set()
+    flags = {"hard_stop_answers_soft": False, "second_soft_stop_refused": False}
     for pat, body in top_arms(rm):
         vs = names(pat)
         calls_notify = len(re.findall(r"self\.notify\(request\)", body))
         for v in vs:
             seen0.add(v)
             if v == "HardStop":
-                if not (calls_notify == 1 and re.search(r"self\.notify\(request\);\s*if let Err\(e\) = self\.channel\.write_message\(&WorkerResponse::ok\(req_id\)\)", body)
+                answers_soft = bool(re.search(r"if let Some\(soft_stop_id\) = self\.shutting_down\.take\(\) \{\s*if let Err\(e\) = self\.channel\.write_message\(&worker_response_error\(\s*soft_stop_id,", body))
+                drains = bool(re.search(r"QUEUE\.with\(\|queue\| \{\s*for response in queue\.borrow_mut\(\)\.drain\(\.\.\) \{\s*if let Err\(e\) = self\.channel\.write_message\(&response\)", body))
+                if not (calls_notify == 1 and re.search(r"^\s*let req_id = request\.id\.clone\(\);\s*self\.notify\(request\);", body)
+                        and re.search(r"if let Err\(e\) = self\.channel\.write_message\(&WorkerResponse::ok\(req_id\)\)", body)
+                        and len(re.findall(r"write_message\(", body)) == 1 + int(answers_soft) + int(drains)
                         and re.search(r"return true;\s*$", body.strip())):
-                    fails.append("read_channel: the HardStop arm is no longer notify + one direct Ok + return true")
+                    fails.append("read_channel: the HardStop arm is no longer notify + (queued answers) + (the soft stop's answer) + one direct Ok + return true")
+                if answers_soft and not drains:
+                    fails.append("read_channel: the HardStop arm answers the soft stop but drops the queued answers")
+                flags["hard_stop_answers_soft"] = answers_soft
             elif v == "SoftStop":
-                if not (calls_notify == 1 and re.search(r"self\.shutting_down = Some\(request\.id\.clone\(\)\);", body)):
-                    fails.append("read_channel: the SoftStop arm no longer records shutting_down and calls notify once")
+                refused = bool(re.search(r"^\s*if let Some\(first\) = self\.shutting_down\.as_ref\(\) \{\s*push_queue\(worker_response_error\(\s*request\.id,[^;]*\)\);\s*\} else \{\s*self\.shutting_down = Some\(request\.id\.clone\(\)\);\s*self\.last_sessions_len = [^;]*;\s*self\.notify\(request\);\s*\}\s*$", body))
+                plain = bool(re.search(r"^\s*self\.shutting_down = Some\(request\.id\.clone\(\)\);\s*self\.last_sessions_len = [^;]*;\s*self\.notify\(request\);\s*$", body))
+                if not (calls_notify == 1 and (refused or plain)):
+                    fails.append("read_channel: the SoftStop arm no longer records shutting_down and calls notify once (refusing a second soft stop or not)")
+                flags["second_soft_stop_refused"] = refused
             else:
                 if calls_notify:
                     fails.append("read_channel: arm %s both answers and calls notify" % v)
@@ -425,11 +436,14 @@ def translate():
             fails.append("get_destinations has no arm for %s" % v)
     text = ("(* GENERATED by props/c08.py:translate from %s, %s and command/src/state.rs — do not edit *)\n"
             "From Coq Require Import List String Bool Arith.\nFrom SV Require Import C08.Base.\nImport ListNotations.\nOpen Scope string_scope.\n\n"
-            "Definition fallback_answers : bool := %s.\n\n"
+            "Definition fallback_answers : bool := %s.\n"
+            "Definition second_soft_stop_refused : bool := %s.\n"
+            "Definition hard_stop_answers_soft : bool := %s.\n\n"
             "(* variants ConfigState::dispatch accepts without touching the state *)\n"
             "Definition state_noop : list string := [%s].\n\n"
             "Definition arms_table : list arm_row := [\n%s\n].\n"
-            % (SERVER, REQUEST, "true" if fallback else "false", "; ".join('"%s"' % v for v in noop), ";\n".join(rows)))
+            % (SERVER, REQUEST, "true" if fallback else "false", "true" if flags["second_soft_stop_refused"] else "false",
+               "true" if flags["hard_stop_answers_soft"] else "false", "; ".join('"%s"' % v for v in noop), ";\n".join(rows)))
     vlib.write_if_changed(os.path.join(vlib.COQ, "C08", "Gen.v"), text)
     return fails
 
@@ -467,10 +481,16 @@ def gen_case(rng, cid, i):
             ops.append(["send", v, k])          # duplicate
     ops.append(["view"])
     r = rng.random()
-    if r < 0.3:
+    if r < 0.2:
         ops.append(["stop", "soft"])
-    elif r < 0.6:
+    elif r < 0.4:
         ops.append(["stop", "hard"])
+    elif r < 0.6:
+        # overlapping stops, written back-to-back: every request up to the first hard stop is answered once
+        ks = [rng.choice(["soft", "soft", "status", "hard"]) for _ in range(rng.randint(2, 5))]
+        if "soft" not in ks and "hard" not in ks:
+            ks.append(rng.choice(["soft", "hard"]))
+        ops.append(["stop"] + ks)
     ops.append(["end"])
     return Case(cid, ops, {})
 
